@@ -89,7 +89,7 @@ func defaultWeights() []W {
 		{"para", 30}, {"shortpara", 8}, {"heading", 6}, {"list", 8}, {"quote", 4}, {"pre", 2},
 		{"datatable", 4}, {"layouttable", 2}, {"figure", 5}, {"img", 5}, {"video", 2},
 		{"embed", 3}, {"hidden", 4}, {"script", 3}, {"form", 2}, {"links", 5}, {"unlikely", 3},
-		{"byline", 1}, {"social", 1}, {"divwrap", 6}, {"baretext", 3},
+		{"byline", 1}, {"social", 1}, {"divwrap", 6}, {"baretext", 3}, {"oddtext", 2},
 	}
 }
 
@@ -324,7 +324,10 @@ func (g *PageGen) commaURL(ext string) string {
 }
 
 func (g *PageGen) img() string {
-	switch g.R.Intn(7) {
+	switch g.R.Intn(8) {
+	case 7:
+		// a picture whose only URL is the src of its img
+		return `<picture` + g.deco() + `><img src="` + g.mediaURL("jpg") + `" alt="alt"></picture>`
 	case 5:
 		// srcset candidates whose URLs contain commas (never at the end of the URL)
 		return `<img src="` + g.mediaURL("jpg") + `" srcset="` + g.commaURL("jpg") + ` 400w, ` + g.commaURL("jpg") + ` 800w"` + g.deco() + `>`
@@ -663,6 +666,8 @@ func (g *PageGen) block(depth int) string {
 		return g.words(g.R.Range(3, 25)) + "\n"
 	case "exotic":
 		return g.exotic(depth)
+	case "oddtext":
+		return g.oddText()
 	}
 	return g.para()
 }
@@ -705,6 +710,32 @@ func (g *PageGen) exotic(depth int) string {
 		return "<" + t + g.deco() + ">" + in + "\n" // left open
 	}
 	return "<" + t + g.deco() + ">" + in + "</" + t + ">\n"
+}
+
+// oddText: a block holding nothing but a very short or unusual text — one capital letter (a drop
+// cap, an A–Z glossary heading), one digit, a bullet, a dash, white space of several kinds — placed
+// directly before a list, a quote, preformatted text or a paragraph
+func (g *PageGen) oddText() string {
+	t := g.R.Pick("A", "Q", "Z", "I", "a", "x", "7", "•", "—", "©", "&nbsp;", "\u3000", "A.", "É", "Ω", "w", "AB", "…")
+	tag := g.R.Pick("p", "div", "h2", "h3", "span", "b", "strong")
+	odd := "<" + tag + g.deco() + ">" + t + "</" + tag + ">"
+	if g.R.Chance(15) {
+		odd = t // bare text in the container
+	}
+	var next string
+	switch g.R.Intn(5) {
+	case 0:
+		next = g.list(0)
+	case 1:
+		next = g.quote(0)
+	case 2:
+		next = "<pre>" + g.words(g.R.Range(3, 15)) + "</pre>\n"
+	case 3:
+		next = "<ol><li>" + g.words(g.R.Range(20, 60)) + "</li><li>" + g.words(g.R.Range(5, 30)) + "</li></ol>\n"
+	default:
+		next = g.para()
+	}
+	return odd + "\n" + next
 }
 
 func (g *PageGen) blocks(n, depth int) string {
